@@ -441,6 +441,8 @@ def coap_encode_cases(draw):
             "lens": draw(st.lists(st.integers(0, 300), min_size=k, max_size=k)), "op": draw(st.integers(0, 8))}
 
 
+from props.ble_layers import C17_BLE_LAYERS  # noqa: E402
+
 SPEC = Property(
     P, "exploration",
     rule=("BLE requests: every fragment size 8..64 x body length 0..200 (one case per size), sizes {20,155,244,496,512} and random x "
@@ -460,6 +462,7 @@ SPEC = Property(
               space="all outcome vectors over 7 item kinds for batches of 1..4 items (2800)", min_nontrivial=1000),
         Layer("coap-batch-gen", run_coap, strategy=coap_cases, n={"quick": 3000, "thorough": 60000}),
         Layer("coap-encode-gen", run_coap_encode, strategy=coap_encode_cases, n={"quick": 1000, "thorough": 20000}),
+        *C17_BLE_LAYERS,
     ],
     assumptions=["reference reassembly written from HAP-BLE 7.3.3-7.3.5; how full each fragment is, is not constrained",
                  "fake GATT client at the bleak API boundary (determine_fragment_size, write_gatt_char, read_gatt_char)"],
